@@ -1,7 +1,9 @@
 //! Damage generators for index and blob files.
 
 use crate::blobfmt::{index_layout, INDEX_HEADER_LEN, INDEX_WRITTEN_BYTE};
-use crate::ops::{Damage, DamageKind};
+use crate::blobfmt;
+use crate::ops::{BlobDamage, BlobDamageKind, Damage, DamageKind};
+use crate::sut;
 use crate::sut::list_files;
 use std::path::{Path, PathBuf};
 
@@ -93,3 +95,57 @@ pub fn apply_index_damage(dir: &Path, d: &Damage, _keylen: usize) -> Option<&'st
         }
     }
 }
+
+/// Applies one damage to a blob file of `dir`; returns true if a file was changed
+pub fn apply_blob_damage(dir: &Path, d: &BlobDamage, keylen: usize) -> bool {
+    let blobs: Vec<PathBuf> = sut::list_files(dir).into_iter().filter(|(_, i, _)| !*i).map(|(_, _, p)| p).collect();
+    if blobs.is_empty() {
+        return false;
+    }
+    let path = &blobs[pick(d.sel, blobs.len())];
+    let mut bytes = match std::fs::read(path) {
+        Ok(b) => b,
+        Err(_) => return false,
+    };
+    let parsed = blobfmt::parse_blob_bytes(&bytes, keylen);
+    let n = parsed.records.len();
+    let pick_rec = |which: u8| -> Option<&blobfmt::ParsedRec> {
+        if n == 0 {
+            None
+        } else {
+            Some(&parsed.records[match which % 3 {
+                0 => 0,
+                1 => n / 2,
+                _ => n - 1,
+            }])
+        }
+    };
+    match &d.kind {
+        BlobDamageKind::CutRecordHeader { which, frac } => match pick_rec(*which) {
+            Some(r) => bytes.truncate(span(*frac, r.pos + 1, r.pos + r.header_len - 1) as usize),
+            None => return false,
+        },
+        BlobDamageKind::CutLastBody { frac } => match pick_rec(2) {
+            Some(r) if r.end() > r.pos + r.header_len => bytes.truncate(span(*frac, r.pos + r.header_len, r.end() - 1) as usize),
+            _ => return false,
+        },
+        BlobDamageKind::ZeroMagic => {
+            if bytes.len() < 8 {
+                return false;
+            }
+            for b in &mut bytes[..8] {
+                *b = 0;
+            }
+        }
+        BlobDamageKind::CutBlobHeader { frac } => bytes.truncate(span(*frac, 0, (blobfmt::BLOB_HEADER_LEN as u64 - 1).min(bytes.len() as u64)) as usize),
+        BlobDamageKind::FlipRecordHeader { which, frac } => match pick_rec(*which) {
+            Some(r) => {
+                let p = span(*frac, r.pos, r.pos + r.header_len - 1) as usize;
+                bytes[p] ^= 0x5a;
+            }
+            None => return false,
+        },
+    }
+    std::fs::write(path, bytes).is_ok()
+}
+
